@@ -155,7 +155,23 @@ func genMapB(rng *sim.Rng, tier string) *ScenarioB {
 		r := rng.Intn(tot)
 		switch {
 		case r < wSet:
-			sc.Ops = append(sc.Ops, Op{K: "set", Key: key()})
+			switch c := rng.Intn(12); {
+			case c == 0:
+				// a constant zero value written over whatever the key holds
+				k := key()
+				for classB(kt, k) == -1 {
+					k++
+				}
+				sc.Ops = append(sc.Ops, Op{K: "setzero", Key: k})
+			case c == 1 && sc.ElemT == "int64":
+				k := key()
+				for classB(kt, k) == -1 {
+					k++ // m[NaN] += x would add an entry that cannot be told from its twins
+				}
+				sc.Ops = append(sc.Ops, Op{K: "add", Key: k})
+			default:
+				sc.Ops = append(sc.Ops, Op{K: "set", Key: key()})
+			}
 		case r < wSet+wDel:
 			sc.Ops = append(sc.Ops, Op{K: "del", Key: key()})
 		case r < wSet+wDel+wGet:
@@ -189,7 +205,7 @@ func genMapB(rng *sim.Rng, tier string) *ScenarioB {
 			}
 		default:
 			if kt == "iface" && rng.Intn(3) == 0 {
-				sc.Ops = append(sc.Ops, Op{K: []string{"setbad", "getbad", "delbad"}[rng.Intn(3)]})
+				sc.Ops = append(sc.Ops, Op{K: []string{"setbad", "getbad", "delbad", "get1bad"}[rng.Intn(4)], Key: rng.Intn(6)})
 			} else {
 				sc.Ops = append(sc.Ops, Op{K: "len"})
 			}
@@ -221,7 +237,7 @@ func validB(sc *ScenarioB) bool {
 			if len(stack) > 0 {
 				return false
 			}
-		case "set", "del", "setbad", "delbad":
+		case "set", "setzero", "add", "del", "setbad", "delbad":
 			if sc.NaNMode && len(stack) > 0 {
 				return false
 			}
@@ -230,7 +246,7 @@ func validB(sc *ScenarioB) bool {
 	return true
 }
 
-var opCodeB = map[string]int{"set": 1, "get": 2, "get1": 3, "del": 4, "clear": 5, "len": 6, "istart": 7, "inext": 8, "idrop": 9, "idrain": 10, "setbad": 11, "getbad": 12, "delbad": 13}
+var opCodeB = map[string]int{"setzero": 14, "get1bad": 15, "add": 16, "set": 1, "get": 2, "get1": 3, "del": 4, "clear": 5, "len": 6, "istart": 7, "inext": 8, "idrop": 9, "idrain": 10, "setbad": 11, "getbad": 12, "delbad": 13}
 
 func scriptB(sc *ScenarioB) []byte {
 	var sb bytes.Buffer
@@ -438,10 +454,19 @@ func judgeMapB(sc *ScenarioB, r bRun) (string, string) {
 	for idx, op := range sc.Ops {
 		i := idx + 1
 		switch op.K {
-		case "set":
+		case "set", "setzero", "add":
 			class := classB(kt, op.Key)
-			nextVal++
-			v := nextVal
+			v := 0
+			switch op.K {
+			case "set":
+				nextVal++
+				v = nextVal
+			case "add":
+				if e := model[class]; class >= 0 && e != nil {
+					v = e.val
+				}
+				v += 1000000
+			}
 			if f := next("P", i); f != nil {
 				msg := strings.Join(f[2:], " ")
 				if nilMap && strings.Contains(msg, "nil map") {
@@ -569,7 +594,7 @@ func judgeMapB(sc *ScenarioB, r bRun) (string, string) {
 					break
 				}
 			}
-		case "setbad", "getbad", "delbad":
+		case "setbad", "getbad", "delbad", "get1bad":
 			if kt != "iface" {
 				if next("N", i) == nil {
 					return crashed(i, op.K)
@@ -582,14 +607,14 @@ func judgeMapB(sc *ScenarioB, r bRun) (string, string) {
 					continue
 				}
 				if !strings.Contains(msg, "unhashable") {
-					return "unhashable-key-no-panic", fmt.Sprintf("op %d: %s with a slice held in an interface as key panicked with %q instead of a 'hash of unhashable type' run-time error", i, op.K, msg)
+					return "unhashable-key-no-panic", fmt.Sprintf("op %d: %s with an unhashable dynamic value (variant %d) as key panicked with %q instead of a 'hash of unhashable type' run-time error", i, op.K, op.Key%6, msg)
 				}
 				continue
 			}
 			if next("N", i) == nil {
 				return crashed(i, op.K)
 			}
-			return "unhashable-key-no-panic", fmt.Sprintf("op %d: %s with a slice held in an interface as key did not panic", i, op.K)
+			return "unhashable-key-no-panic", fmt.Sprintf("op %d: %s with an unhashable dynamic value as key (variant %d of: slice, map, func, struct with a blank func-array field, array of such, struct holding a slice in an interface) did not panic", i, op.K, op.Key%6)
 		}
 	}
 	if f := next("Z", len(sc.Ops)); f == nil {
